@@ -8,7 +8,11 @@
       density (relative tolerance) — the model answers what the specification demands.
     @ draw <μ> <σ²> <k> <source>
         → some n=<k> consumed=<c> samples=<…> | none consumed=<c>
-    @ mv <N> <k> mean=<…> cov=<…> src=<…> names=<samples>,<features> via=matrix|tensor [ty=rat]
+    @ drawf <μ> <σ²> <k> <source>    (f64)
+        → some n=<k> consumed=<c> samples=ok | none consumed=<c>
+      the harness compares the float samples bit for bit with the documented Box–Muller formula of
+      the consumed numbers (±inf / NaN included); the model supplies count and consumption
+    @ mv <N> <k> mean=<…> cov=<…> src=<…> names=<samples>,<features> via=matrix|tensor [ty=rat] [mname=<mean's name> cnames=<covariance's names>]
         → some shape=<s>:<k>,<f>:<N> consumed=<c> values=<…> | none consumed=<c> | panic(explicit)
     @ approx <fp|rat> <data>                                   → mean=<…> variance=<…> | panic(explicit)
     @ new matrix <meanRows> <meanCols> <covRows> <covCols>     → ok ## accessors=ok | panic(explicit)
@@ -96,6 +100,15 @@ def step (s : State) (toks : List String) : State × String :=
     match parseFp muS, parseFp varS, kS.toNat?, parseFps srcS with
     | some mu, some var, some k, some src => (s, answerDraw mu var k src)
     | _, _, _, _ => (s, "bad-op")
+  | "@" :: "drawf" :: _ :: _ :: kS :: srcS :: _ =>
+    -- f64 line: the model answers what the specification demands (count and consumption); the
+    -- harness compares the samples bit for bit with the documented formula
+    match kS.toNat? with
+    | some k =>
+      let len := (splitComma srcS).length
+      if len < Spec.Gaussian.needed k then (s, s!"none consumed={Spec.Gaussian.consumed len k}")
+      else (s, s!"some n={k} consumed={Spec.Gaussian.consumed len k} samples=ok")
+    | none => (s, "bad-op")
   | "@" :: "mv" :: nS :: kS :: rest =>
     let names := parseNames ((optArg "names" rest).getD "samples,features")
     if optArg "ty" rest = some "rat" then
